@@ -5,8 +5,10 @@ import L4.Gen.Consts
 
 `Src` mirrors the chain of `net.Conn`s that exists behind a `*layer4.Connection`:
 
-* `raw chunks`      – the client's socket as scripted by the harness: every `Read` returns (a prefix of)
-                      the next chunk; no chunk left = end of stream / deadline error;
+* `raw chunks last` – the client's socket as scripted by the harness: every `Read` returns (a prefix of)
+                      the next chunk; no chunk left = end of stream / deadline error; with `last` the read that
+                      hands out the final bytes of the script reports the end of the stream *together with* them
+                      (`n > 0, io.EOF`, allowed by the `io.Reader` contract and done by `crypto/tls`);
 * `l4 buf off frozen matching inner` – `layer4.Connection` (fields `buf`, `offset`, `frozenOffset`, `matching`);
 * `bufio pending size inner` – `bufio.Reader` of the PROXY protocol handler (`size` = 4096);
 * `limit batch inner` – `throttledConn` (a read pulls at most `batch` bytes);
@@ -23,7 +25,7 @@ inductive RErr | none | eof | consumed
   deriving Repr, DecidableEq, Inhabited
 
 inductive Src where
-  | raw (chunks : List Bytes)
+  | raw (chunks : List Bytes) (last : Bool)
   | l4 (buf : Bytes) (off frozen : Nat) (matching : Bool) (inner : Src)
   | bufio (pending : Bytes) (size : Nat) (inner : Src)
   | limit (batch : Nat) (inner : Src)
@@ -33,7 +35,7 @@ inductive Src where
 namespace Src
 
 def logical : Src → Bytes
-  | .raw cs => cs.flatten
+  | .raw cs _ => cs.flatten
   | .l4 buf off _ _ inner => buf.drop off ++ inner.logical
   | .bufio p _ inner => p ++ inner.logical
   | .limit _ inner => inner.logical
@@ -41,9 +43,10 @@ def logical : Src → Bytes
 
 /-- one `Read(p)` with `len(p) = n` -/
 def read : Src → Nat → (Bytes × RErr) × Src
-  | .raw [], _ => (([], .eof), .raw [])
-  | .raw (c :: cs), n =>
-      if c.length ≤ n then ((c, .none), .raw cs) else ((c.take n, .none), .raw (c.drop n :: cs))
+  | .raw [] l, _ => (([], .eof), .raw [] l)
+  | .raw (c :: cs) l, n =>
+      if c.length ≤ n then ((c, if l && cs.isEmpty then .eof else .none), .raw cs l)
+      else ((c.take n, .none), .raw (c.drop n :: cs) l)
   | .l4 buf off fr m inner, n =>
       -- if cx.matching && (len(cx.buf) == 0 || len(cx.buf) == cx.offset)
       if m && (buf.length == 0 || buf.length == off) then (([], .consumed), .l4 buf off fr m inner)
@@ -76,7 +79,7 @@ def read : Src → Nat → (Bytes × RErr) × Src
 
 /-- no `layer4.Connection` of the chain is in matching mode -/
 def noMatching : Src → Prop
-  | .raw _ => True
+  | .raw _ _ => True
   | .l4 _ _ _ m inner => m = false ∧ inner.noMatching
   | .bufio _ _ inner => inner.noMatching
   | .limit _ inner => inner.noMatching
@@ -84,7 +87,7 @@ def noMatching : Src → Prop
 
 /-- cursors are inside their buffers -/
 def wf : Src → Prop
-  | .raw _ => True
+  | .raw _ _ => True
   | .l4 buf off _ _ inner => off ≤ buf.length ∧ inner.wf
   | .bufio _ _ inner => inner.wf
   | .limit _ inner => inner.wf
@@ -92,7 +95,7 @@ def wf : Src → Prop
 
 /-- everything the tee layers of the chain have copied to their branches, innermost first -/
 def teeLogs : Src → List Bytes
-  | .raw _ => []
+  | .raw _ _ => []
   | .l4 _ _ _ _ inner => inner.teeLogs
   | .bufio _ _ inner => inner.teeLogs
   | .limit _ inner => inner.teeLogs
@@ -126,16 +129,28 @@ inductive Abort | timeout | full | eof
 
 /-- `cx.prefetch()`: one read of at most `prefetchChunkSize` bytes from the *underlying* conn, appended to `buf`,
 refused when `len(buf) ≥ MaxMatchingBytes`. Both Go branches (in place / pooled tmp + append) have this value
-semantics. A read error aborts (the bytes read so far are still appended). -/
+semantics. Bytes that arrive together with a read error are appended and the call succeeds (`if err != nil && n == 0
+{ return err }`): the error is seen by the next read. Only an error without bytes aborts. -/
 def Src.prefetch : Src → Except Abort Src
   | .l4 buf off fr m inner =>
     if buf.length < Gen.layer4_MaxMatchingBytes then
       let ((d, e), inner') := inner.read Gen.layer4_prefetchChunkSize
-      match e with
-      | .none => .ok (.l4 (buf ++ d) off fr m inner')
-      | _ => .error .eof
+      if e != .none && d.length == 0 then .error .eof
+      else .ok (.l4 (buf ++ d) off fr m inner')
     else .error .full
   | _ => .error .eof
+
+/-- `cx.prefetch()` as it was before the repair (`if err != nil { return err }` although the bytes had been appended
+and, worse, were never looked at again because the router gives up on the error): returns the verdict and the state
+the connection is left in. Kept for the witness theorem only. -/
+def Src.prefetchOld : Src → Except Abort Unit × Src
+  | .l4 buf off fr m inner =>
+    if buf.length < Gen.layer4_MaxMatchingBytes then
+      let ((d, e), inner') := inner.read Gen.layer4_prefetchChunkSize
+      if e != .none then (.error .eof, .l4 (buf ++ d) off fr m inner')
+      else (.ok (), .l4 (buf ++ d) off fr m inner')
+    else (.error .full, .l4 buf off fr m inner)
+  | s => (.error .eof, s)
 
 /-- `cx.Wrap(conn)` after the repair: the new Connection takes over `buf/offset` only when they are drained;
 `w` builds the wrapper conn that reads through the old Connection. -/
